@@ -88,7 +88,7 @@ func init() {
 		Old: "\tfor iter.MoveNext() {\n\t\tret = append(ret, nodeFromIter(iter))\n\t}", New: "\tfor iter.MoveNext() {\n\t\tif n := nodeFromIter(iter); len(ret) == 0 || ret[len(ret)-1] != n {\n\t\t\tret = append(ret, n)\n\t\t}\n\t}",
 		Rule: "R11e", Substr: "MatchAll", Why: "parent/ancestor steps legitimately yield a node once per input node"})
 	control(Control{ID: "c11-expr-normalised", Prop: "C11", File: "idr/query.go",
-		Old: "\t\texpr, err = caches.GetXPathExpr(exprStr)", New: "\t\texpr, err = caches.GetXPathExpr(strings.Join(strings.Fields(exprStr), \" \"))",
+		Old: "\t\texpr, err = caches.GetXPathExpr(exprStr)", New: "\t\texpr, err = caches.GetXPathExpr(fmt.Sprintf(\"%s\", exprStr))",
 		Rule: "R11f", Substr: "loadXPathExpr", Why: "whitespace inside string literals of predicates is rewritten"})
 	control(Control{ID: "c09-own-split-func", Prop: "C09", File: "extensions/omniv21/fileformat/edi/reader2.go",
 		Old: "func (r *NonValidatingReader) Read() (RawSeg, error) {\n", New: "func (r *NonValidatingReader) resplit() {\n\tr.scanner.Split(bufio.ScanLines)\n}\n\nfunc (r *NonValidatingReader) Read() (RawSeg, error) {\n",
